@@ -1,4 +1,7 @@
+from warnings import warn
+
 from .. ThermoChem import ThermochemBase, ThermochemIncomplete
+from .. Error import OutsideCorrelationError, IncompleteDataWarning
 from .. import yaml_io
 import numpy as np
 from ..GroupAdd.Library import GroupLibrary
@@ -77,16 +80,30 @@ class ThermochemGroupAdditive(ThermochemBase):
         else:
             ThermochemBase.__init__(self, range=None)
 
+    def _check_own_range(self, T):
+        # The range of an estimate is its own (set_range, library groups
+        # changed since): it is enforced here, not left to the groups.
+        # Groups without heat capacity data answer outside their range with
+        # the incomplete-data warning, and so does an estimate that contains
+        # one (most Benson groups of radicals and a few others are like that).
+        try:
+            self.check_range(T)
+        except OutsideCorrelationError:
+            if all(getattr(correlation, 'has_ND_Cp', lambda: True)()
+                   for (correlation, count) in self.correlations):
+                raise
+            warn("Evaluation at T=%s outside the valid range %s of the "
+                 "estimate: groups without heat capacity data are not "
+                 "corrected." % (T, self.range), IncompleteDataWarning)
+
     def get_CpoR(self, T):
-        # the range of an estimate is its own (set_range, library groups
-        # changed since): it is enforced here, not left to the groups
-        self.check_range(T)
+        self._check_own_range(T)
         return sum((count*correlation.get_CpoR(T)
                     for (correlation, count) in self.correlations))
     get_CpoR.__doc__ = ThermochemBase.get_CpoR.__doc__
 
     def get_HoRT(self, T):
-        self.check_range(T)
+        self._check_own_range(T)
         return sum((count*correlation.get_HoRT(T)
                     for (correlation, count) in self.correlations))
     get_HoRT.__doc__ = ThermochemBase.get_HoRT.__doc__
@@ -105,7 +122,7 @@ class ThermochemGroupAdditive(ThermochemBase):
         return S_ele
 
     def get_SoR(self, T, S_elements=None):
-        self.check_range(T)
+        self._check_own_range(T)
         if not S_elements:
             S_ele = 0
         else:
@@ -115,17 +132,17 @@ class ThermochemGroupAdditive(ThermochemBase):
     get_SoR.__doc__ = ThermochemBase.get_SoR.__doc__
 
     def get_CpoR_SE(self, T):
-        self.check_range(T)
+        self._check_own_range(T)
         return float(np.sqrt(np.square(self.RMSE.get_CpoR(T)) *
                              self.Xp_invXX_Xp))
 
     def get_HoRT_SE(self, T):
-        self.check_range(T)
+        self._check_own_range(T)
         return float(np.sqrt(np.square(self.RMSE.get_HoRT(T)) *
                              self.Xp_invXX_Xp))
 
     def get_SoR_SE(self, T):
-        self.check_range(T)
+        self._check_own_range(T)
         return float(np.sqrt(np.square(self.RMSE.get_SoR(T)) *
                              self.Xp_invXX_Xp))
 
